@@ -234,6 +234,21 @@ def run_script(script):
                 cts[i] = bytes(ct)
             ev.append(_event("enc", decl, k=b2s(k), m=b2s(m), ct=b2s(ct or b""), out=out,
                              rng=[b2s(r) for r in REC.rng], core=_core_json()))
+        elif op == "encmany":
+            # the same (k, m) encrypted n times on this one object: every ciphertext has to be new (an IV source that
+            # cycles, however long its period below n, shows here)
+            m = pc.unhx(st["m"])
+            out, many = "ok", []
+            try:
+                for _ in range(st["n"]):
+                    c = inst.Encrypt(k, m)
+                    if not isinstance(c, (bytes, bytearray)):
+                        out = "badtype:" + type(c).__name__
+                        break
+                    many.append(b2s(bytes(c)))
+            except Exception as ex:
+                out = pc.outcome_of(ex)
+            ev.append(_event("encmany", decl, k=b2s(k), m=b2s(m), cts=many, n=st["n"], out=out))
         elif op == "dec":
             src = st["ct"]
             if isinstance(src, dict):
@@ -366,6 +381,20 @@ def s_keylen(tid, rnd, kl):
     return {"tid": tid, "kind": "keylen", "klen": kl, "steps": steps}
 
 
+def s_many(tid, rnd, kl, ml, n):
+    """one object, one key, one message, n encryptions in a row (then one more ordinary round trip)"""
+    x = pc.hx
+    k = _rb(rnd, kl)
+    m = _rb(rnd, ml)
+    return {"tid": tid, "kind": "many", "klen": kl, "mlen": ml, "steps": [
+        {"op": "ctor", "decl": D(kl)},
+        {"op": "enc", "k": x(k), "m": x(m)},
+        {"op": "encmany", "k": x(k), "m": x(m), "n": n},
+        {"op": "enc", "k": x(k), "m": x(m)},
+        {"op": "dec", "k": x(k), "ct": {"ref": 3}},
+    ]}
+
+
 def s_ctor(tid, decl):
     steps = [{"op": "ctor", "decl": decl}]
     if decl["key"] not in KEYLENS and decl["key"] >= 0:
@@ -437,6 +466,9 @@ def gen_scripts(tr, rnd):
         for j in range(6 if thorough else 2):
             S.append(s_empty_wrongkey("wrongkey-k%d-m15-%d" % (kl, j), rnd, kl, 12, 15))
             S.append(s_empty_wrongkey("wrongkey-k%d-m16-%d" % (kl, j), rnd, kl, 12, 16))
+    # many encryptions of one (k, m) on one object
+    for kl in KEYLENS:
+        S.append(s_many("many-k%d" % kl, rnd, kl, 5, 6000 if thorough else 700))
     # constructor: key lengths that are not permitted, cipher lengths no ciphertext can have
     for kb in (-1, 0, 1, 8, 15, 17, 20, 23, 25, 31, 33, 48, 64, 128, 256):
         S.append(s_ctor("ctor-key%d" % kb, D(kb)))
